@@ -77,6 +77,20 @@ def find_fn(toks, name, lo=0, hi=None):
         if toks[s[a]].kind == 'ident' and toks[s[a]].text == 'fn' and \
                 toks[s[a + 1]].kind == 'ident' and toks[s[a + 1]].text == name:
             hits.append(a)
+    if len(hits) > 1:
+        # several functions of this name in the range (a free function and a method): the one at the outermost brace level of the range, if it is unique
+        depth_at = {}
+        d = 0
+        for k in range(lo, hi):
+            t = toks[k]
+            if t.kind == 'punct' and t.text == '{':
+                d += 1
+            elif t.kind == 'punct' and t.text == '}':
+                d -= 1
+            depth_at[k] = d
+        top = [a for a in hits if depth_at.get(s[a], 1) == 0]
+        if len(top) == 1:
+            hits = top
     if len(hits) != 1:
         raise LostAnchor('fn %s found %d times' % (name, len(hits)))
     a = hits[0]
